@@ -1,7 +1,7 @@
-CONSTANTS Alphabet = "short"
-          Depth = 3
-          EmitDepth = 0
+CONSTANTS Alphabets = {"short", "long", "binary", "mixed"}
+          Depth = 2
+          EmitDepth = 2
           PrefixTable <- StdPrefixes
 SPECIFICATION Spec
-INVARIANTS PTypeOK Unique OthersAreNotUnits
+INVARIANTS EmitMeta PTypeOK Unique OthersAreNotUnits EmitCase
 CHECK_DEADLOCK FALSE
